@@ -358,3 +358,108 @@ static RegisterProperty reg_c02(PropertyDef{
     q_real(), q_stubs(), q_assume(), "hash over messages of (phase, #pending, #done, accepted) at end of run", 1500, 80000});
 
 }  // namespace sim
+
+// ------------------------------------------------------------------------------------------------ C15 / C16 timing
+namespace sim {
+
+static void timing_knobs(Rng &r, Plan &p) {
+  p.knobs.set("stick", r.pick(std::vector<double>{0.0, 0.5, 0.9})).set("split_p", 0.0).set("dir_shuffle_p", r.chance(0.5) ? 0.5 : 0.0).set("tick_p", 0.0).set("ino_policy", (int)r.below(3));
+  if (r.chance(0.3)) { p.knobs.set("pct", true); Json pts = Json::arr(); int d = (int)r.range(1, 3); for (int i = 0; i < d; i++) pts.push((long long)r.range(1, 900)); p.knobs.set("pct_points", pts); }
+}
+
+static bool gen_c15(uint64_t seed, const std::string &tier, uint64_t i, Plan &p) {
+  (void)tier;
+  p = Plan(); p.property = "C15"; p.world = "Q"; p.seed = mix64(mix64(seed, 0xC15), i);
+  Rng r(p.seed);
+  timing_knobs(r, p);
+  p.knobs.set("oracles", oracle_list({"c15"}));
+  int64_t lifetime = r.pick(std::vector<int64_t>{0, 1, 100, 3000, 604800, 2000000000LL});
+  Json conf = Json::obj(); conf.set("queuelifetime", (long long)lifetime);
+  bool conc1 = r.chance(0.5);
+  if (conc1) { conf.set("concurrencylocal", 1); conf.set("concurrencyremote", 1); }
+  p.knobs.set("conf", conf);
+  int nplant = lifetime > 1000000 ? (int)r.below(3) : 0;
+  for (int q = 0; q < nplant; q++) {
+    // old survivors: ages with bit-pattern bias up to 2^31
+    int64_t age; int kind = (int)r.below(4);
+    if (kind == 0) age = (1LL << r.range(1, 31)) - (int64_t)r.below(3); else if (kind == 1) { int64_t s = r.range(1, 46340); age = s * s - (int64_t)r.below(2); } else age = (int64_t)r.below(1u << 31);
+    if (age < 0) age = 0;
+    Json pl = Json::obj(); pl.set("op", "plant").set("state", "S5").set("age", (long long)age);
+    Json rc = Json::arr(); std::string a = "p" + std::to_string(q) + (r.chance(0.5) ? "@l.example" : "@r.example"); rc.push(a); pl.set("rcpts", rc);
+    p.ops.push(pl);
+    Json sc = Json::obj(); sc.set("op", "script").set("rcpt", a); Json at = Json::arr(); int nz = (int)r.range(0, 3); for (int y = 0; y < nz; y++) at.push(Json::obj().set("v", "Z").set("text", "later").set("lat", (long long)r.below(4))); at.push(Json::obj().set("v", r.chance(0.7) ? "K" : "D").set("text", "fin")); sc.set("attempts", at); p.ops.push(sc);
+  }
+  p.ops.push(Json::obj().set("op", "boot"));
+  int nmsg = (int)r.range(1, 5);
+  for (int m = 0; m < nmsg; m++) {
+    Json inj = Json::obj(); inj.set("op", "inject").set("id", "m" + std::to_string(m + 1)).set("sender", "s@x.example").set("body_len", 20).set("body_seed", m);
+    std::string a = (r.chance(0.5) ? "l" : "r") + std::to_string(m + 1); a += a[0] == 'l' ? "@l.example" : "@r.example";
+    Json rc = Json::arr(); rc.push(a); inj.set("rcpts", rc);
+    Json sc = Json::obj(); sc.set("op", "script").set("rcpt", a); Json at = Json::arr(); int nz = (int)r.range(0, 6);
+    for (int y = 0; y < nz; y++) at.push(Json::obj().set("v", "Z").set("text", "later").set("lat", (long long)(r.chance(0.6) ? 0 : r.range(1, 30))));
+    at.push(Json::obj().set("v", r.chance(0.7) ? "K" : "D").set("text", "fin")); sc.set("attempts", at);
+    p.ops.push(sc); p.ops.push(inj);
+    if (r.chance(0.6)) p.ops.push(Json::obj().set("op", "sleep").set("s", (long long)r.pick(std::vector<int64_t>{1, 7, 99, 100, 101, 399, 400, 401, 1000, 5000})));
+  }
+  int nev = (int)r.below(4);
+  for (int q = 0; q < nev; q++) {
+    p.ops.push(Json::obj().set("op", "sleep").set("s", (long long)r.pick(std::vector<int64_t>{1, 50, 399, 400, 401, 900, 2000, 10000})));
+    int kind = (int)r.below(3);
+    if (kind == 0) p.ops.push(Json::obj().set("op", "signal").set("to", "qmail-send").set("sig", "ALRM"));
+    else if (kind == 1) { p.ops.push(Json::obj().set("op", "shutdown").set("max_s", 100000)); if (r.chance(0.5)) p.ops.push(Json::obj().set("op", "sleep").set("s", (long long)r.range(1, 3000))); p.ops.push(Json::obj().set("op", "boot")); }
+    else p.ops.push(Json::obj().set("op", "signal").set("to", "qmail-send").set("sig", "HUP"));
+  }
+  int64_t horizon = std::min<int64_t>(lifetime, 700000) + 500000;
+  p.ops.push(Json::obj().set("op", "settle").set("max_s", (long long)horizon));
+  p.knobs.set("max_sim_s", (long long)(horizon * 3 + 4000000)).set("expect_drain", false);
+  p.label = "msgs=" + std::to_string(nmsg) + " planted=" + std::to_string(nplant) + " lifetime=" + std::to_string(lifetime) + (conc1 ? " conc=1" : "") + " events=" + std::to_string(nev);
+  return true;
+}
+
+static bool gen_c16(uint64_t seed, const std::string &tier, uint64_t i, Plan &p) {
+  (void)tier;
+  p = Plan(); p.property = "C16"; p.world = "Q"; p.seed = mix64(mix64(seed, 0xC16), i);
+  Rng r(p.seed);
+  timing_knobs(r, p);
+  p.knobs.set("stick", r.pick(std::vector<double>{0.0, 0.2, 0.5, 0.8}));
+  p.knobs.set("oracles", oracle_list({"c16"}));
+  Json conf = Json::obj(); conf.set("queuelifetime", (long long)r.pick(std::vector<int64_t>{100, 604800})); p.knobs.set("conf", conf);
+  p.ops.push(Json::obj().set("op", "boot"));
+  // let the daemon reach an idle select, or keep it busy scanning
+  int pre = (int)r.below(3);
+  if (pre == 0) p.ops.push(Json::obj().set("op", "settle").set("max_s", 1));
+  else if (pre == 1) p.ops.push(Json::obj().set("op", "yield").set("n", (long long)r.range(1, 400)));
+  int rounds = (int)r.range(1, 3); int rid = 0;
+  for (int q = 0; q < rounds; q++) {
+    int ninj = (int)r.range(1, 2);
+    for (int x = 0; x < ninj; x++) {
+      Json inj = Json::obj(); inj.set("op", "inject").set("id", "m" + std::to_string(++rid)).set("sender", "s@x.example").set("body_len", (long long)r.pick(std::vector<int64_t>{0, 10, 300})).set("body_seed", rid);
+      std::string a = (r.chance(0.5) ? "l" : "r") + std::to_string(rid); a += a[0] == 'l' ? "@l.example" : "@r.example"; Json rc = Json::arr(); rc.push(a); inj.set("rcpts", rc);
+      if (r.chance(0.4)) { Json sc = Json::obj(); sc.set("op", "script").set("rcpt", a); Json at = Json::arr(); at.push(Json::obj().set("v", "Z").set("text", "later").set("lat", (long long)r.below(5))); sc.set("attempts", at); p.ops.push(sc); }
+      p.ops.push(inj);
+      if (r.chance(0.5)) p.ops.push(Json::obj().set("op", "yield").set("n", (long long)r.range(1, 60)));
+    }
+    int w = (int)r.below(3);
+    if (w == 0) p.ops.push(Json::obj().set("op", "settle").set("max_s", (long long)r.pick(std::vector<int64_t>{1, 5, 1400})));
+    else if (w == 1) p.ops.push(Json::obj().set("op", "yield").set("n", (long long)r.range(1, 500)));
+  }
+  p.ops.push(Json::obj().set("op", "settle").set("max_s", 700000));
+  p.knobs.set("max_sim_s", 3000000);
+  p.label = "rounds=" + std::to_string(rounds) + " injections=" + std::to_string(rid);
+  return true;
+}
+
+static RegisterProperty reg_c15(PropertyDef{
+    "C15", "Q", "exploration", "deterministic simulation on a virtual clock: histories of temporary failures, ALRM, TERM+restart and queue lifetimes; scheduler ghost recomputes due times from the documented formula with exact integer arithmetic", gen_c15,
+    "plan i = f(VERIF_SEED, i): 1-5 single-recipient messages (+0-2 planted survivors with ages up to 2^31 biased to powers of two and perfect squares) answered Z k times then K/D, queuelifetime in {0,1,100,3000,604800,2e9}, concurrency 1 or default, "
+    "0-3 timed events (ALRM, HUP, TERM+restart). The virtual clock moves only when every process is blocked. Checked: no pass before birth+(isqrt(age)+10|20)^2 unless ALRM/unclean restart; no sleeping past a due retry with free capacity; earliest due first; "
+    "persisted schedule across clean restart; one final pass after the lifetime turning Z into D; non-trivial = at least one delivery pass observed",
+    q_real(), q_stubs(), q_assume(), "hash over messages of (phase, #pending, #done, accepted) at end of run", 1500, 60000});
+
+static RegisterProperty reg_c16(PropertyDef{
+    "C16", "Q", "exploration", "deterministic simulation: seeded/PCT interleavings of qmail-queue's publish-then-signal with qmail-send's re-arm-then-scan on a modelled Linux FIFO; idle-time latency oracle and spin detector", gen_c16,
+    "plan i = f(VERIF_SEED, i): daemon idle, starting or mid-scan; 1-2 injectors per round for 1-3 rounds at random yield offsets; random and PCT schedules; directory-scan order and late-entry visibility chosen per scan. "
+    "Checked: a completed injection is picked up before the system has been idle for more than 2 s (a lost wake-up shows as a 1500 s sleep); no run of >400 zero-timeout selects without other work; the daemon never sleeps past a due retry; non-trivial = a delivery pass was observed",
+    q_real(), q_stubs(), q_assume(), "hash over messages of (phase, #pending, #done, accepted) at end of run", 2500, 100000});
+
+}  // namespace sim
